@@ -22,6 +22,7 @@ RULE = (
     "(own numbering, coincident / partly coincident / disjoint nodes, with and without mergePoints), and the parts "
     "of a partition; non-trivial = at least two meshes sharing a coincident node or a partition with Nproc>=2."
     ' Round 8: merge shifts the pieces along x or out of the plane of a 2D mesh.'
+    ' Round 9: when the pieces of merge are shifted apart, one of them may hold two nodes of its own at the same place (they stay two nodes).'
 )
 ASSUMPTIONS = [
     "MPI itself is absent (MPI_SIZE == 1): partitions are built in one process, owned dofs are taken from "
@@ -527,6 +528,8 @@ def merge_cases(draw):
     # direction of the shifts: along x, or out of the plane of a 2D mesh (the shifted pieces then live in 3D while the unshifted
     # ones are planar, and nodes of different pieces differ by their z only)
     case["shift_axis"] = draw(st.sampled_from(["x", "x", "z"]))
+    # one piece holds two nodes of its own at the same place (an element with a node of its own: the lips of a crack)
+    case["split"] = draw(st.sampled_from([None, None, 0, 1]))
     case["dup"] = draw(st.integers(0, 3)) == 0  # last mesh = copy of the first (fully coincident)
     case["mergePoints"] = draw(st.integers(0, 3)) > 0
     case["unique"] = draw(st.integers(0, 3)) > 0
@@ -606,7 +609,13 @@ def check_merge(case, rec):
         rec.label("merge:shift_" + ("z" if zshift else "x"))
         for p in range(k):
             sh = int(case["shifts"][p])
-            sub, l2g = cp.submesh(gl, pieces[p], case["perms"][p], shift_of(sh))
+            # (only when no other mesh of the list has a node at that place - pieces shifted apart, no duplicated piece: a node of
+            # another mesh that coincides with BOTH lips leaves the outcome undefined)
+            apart = len(set(int(x) for x in case["shifts"][:k])) == k and not case.get("dup")
+            split = (10**6 + p) if (case.get("split") == p and case["mergePoints"] and apart) else None  # identity of the duplicated node
+            if split:
+                rec.label("merge:piece_with_coincident_own_nodes")
+            sub, l2g = cp.submesh(gl, pieces[p], case["perms"][p], shift_of(sh), split_node=split)
             if sub is None:
                 continue
             items.append((sub, 0, sh, l2g, {t: v for t, v in pieces[p].items() if np.size(v)}))
